@@ -137,6 +137,90 @@ def gen_script(r, rounds=(1, 2), max_edits=7, names=None, odd=True, sessions=("s
             "exec": [n for n in sorted(base) if r.chance(1, 4)]}
 
 
+DIRECTED = ["wipe_then_more", "two_human_then_split_ai", "scratch_and_back", "ai_then_human_above_then_ai",
+            "human_rewrite_between_sessions"]
+
+
+def gen_directed(r, pattern, sessions=("s1", "s2")):
+    """Short single-round scripts for shapes the random generator draws rarely.  Same result format as gen_script."""
+    tr = Truth()
+    names = ["f.txt", "g.txt"]
+    for n in names:
+        tr.new_file(r, n, r.range(3, 6), "H")
+    base = {n: tr.text(n) for n in names}
+    ops, kinds = [], {}
+    parent_texts = {p: set(t for t, _ in ls) for p, ls in tr.files.items()}
+
+    def emit(actor, path, d, inter=()):
+        k = d[0] + ":" + ("ai" if actor != "H" else "human")
+        kinds[k] = kinds.get(k, 0) + 1
+        ops.append(("edit", actor, path, tr.text(path), d, list(inter)))
+
+    def ai_ins(path, sess=None):
+        sess = sess or r.pick(list(sessions))
+        ls = tr.files[path]
+        pos, n = r.range(0, len(ls)), r.range(2, 3)
+        tr.insert(r, path, pos, n, sess)
+        emit(sess, path, ("ins", path, pos, n), [prefix_text(tr, path, pos, j, n) for j in range(1, n)])
+        return sess
+
+    def h_ins(path, where=None):
+        ls = tr.files[path]
+        pos = where if where is not None else r.range(0, len(ls))
+        n = r.range(1, 2)
+        tr.insert(r, path, pos, n, "H")
+        emit("H", path, ("ins", path, pos, n))
+
+    def h_wipe(path):
+        ls = tr.files[path]
+        k_ = 0
+        for i_, (t_, a_) in enumerate(list(ls)):
+            if a_ != "H":
+                ls[i_] = [tr.fresh(r), "H"]
+                k_ += 1
+        emit("H", path, ("wipe", path, k_))
+
+    def h_mod(path):
+        ls = tr.files[path]
+        pos = r.below(len(ls))
+        tr.modify_inline(r, path, pos, "H")
+        emit("H", path, ("mod", path, pos))
+
+    if pattern == "wipe_then_more":
+        ai_ins("f.txt")
+        h_wipe("f.txt")
+        for _ in range(r.range(1, 2)):
+            r.pick([h_ins, h_mod])("f.txt")
+    elif pattern == "two_human_then_split_ai":
+        for _ in range(r.range(2, 3)):
+            r.pick([h_ins, h_mod])("g.txt")
+        ai_ins("f.txt")
+        if r.chance(1, 2):
+            h_ins("g.txt")
+    elif pattern == "scratch_and_back":
+        ai_ins("f.txt")
+        ls = tr.files["f.txt"]
+        pos = r.pick([0, r.range(0, len(ls))])
+        tr.counter += 1
+        ls.insert(pos, [f"TMP{tr.counter} scratch", "H"])
+        emit("H", "f.txt", ("tmpins", "f.txt", pos))
+        del ls[pos]
+        emit("H", "f.txt", ("undo", "f.txt", pos))
+    elif pattern == "ai_then_human_above_then_ai":
+        s1_ = ai_ins("f.txt")
+        h_ins("f.txt", where=0)
+        ai_ins("f.txt", sess=r.pick([s1_] + list(sessions)))
+    else:
+        a = ai_ins("f.txt", sess=sessions[0])
+        h_mod("f.txt")
+        ai_ins("f.txt", sess=sessions[1])
+        h_ins("g.txt")
+    ops.append(("commit", 0, expected_note(tr, parent_texts),
+                {p: expected_blame(tr, p) for p in tr.files if tr.files[p]},
+                tr.snapshot(), {p: sorted(v) for p, v in parent_texts.items()}))
+    return {"base": base, "ops": ops, "kinds": kinds, "final": tr.snapshot(), "exec": []}
+
+
 def prefix_text(tr, path, pos, j, n):
     """text of `path` with only the first j of the n lines just inserted at pos"""
     saved = tr.files[path]
